@@ -951,8 +951,16 @@ func runQuery(w *harness.W, r gen.R) {
 		want = []string{fmt.Sprintf("%d,%d", wantRow, wantCol)}
 		if qc.Timing != "in-time" && qc.Timing != "early" {
 			want = []string{"-1,-1"}
-		} else {
+		} else if qc.Timing == "in-time" || res.s != "-1,-1" {
 			want = append(want, "-1,-1") // the 50ms deadline may pass on a loaded machine
+		} else {
+			// early: the report was dispatched while the request was still
+			// being written, it lies ready before the caller starts to
+			// wait; ask twice more before believing in a stalled machine
+			for try := 0; try < 2 && res.s == "-1,-1"; try++ {
+				row, col := sess.Vx.CursorPosition()
+				res.s = fmt.Sprintf("%d,%d", row, col)
+			}
 		}
 	case "bg":
 		want = []string{rgb(sess.Term.BgColor)}
